@@ -1400,6 +1400,10 @@ fn placement_family(out: &mut Out, semver: bool) {
         vec![],
         vec![C::Var(Var::BumpedBranch), C::Var(Var::Distance), C::Var(Var::BumpedCommitHashShort)],
         vec![C::Str("B.01.x".into()), C::UInt(5), C::Var(Var::Dirty)],
+        // sections whose components all resolve to the empty text (a branch without one ASCII letter or digit, literals of separators only):
+        // the section contributes nothing — no dangling `+` / `-` (seed T01_2)
+        vec![C::Var(Var::BumpedBranch)],
+        vec![C::Str("".into()), C::Str("-_".into())],
     ];
     if out.thorough {
         // random component lists (the schema constructor filters the invalid ones)
@@ -1432,7 +1436,7 @@ fn placement_family(out: &mut Out, semver: bool) {
         for epoch in [None, Some(0u64), Some(4)] {
             for pre in [None, Some((PreReleaseLabel::Alpha, None)), Some((PreReleaseLabel::Beta, Some(0u64))), Some((PreReleaseLabel::Rc, Some(12)))] {
                 for (post, dev) in [(None, None), (Some(0u64), Some(7u64)), (Some(3), None)] {
-                    for branch in [None, Some("Feature/Äx.01-y"), Some("release/2.x")] {
+                    for branch in [None, Some("Feature/Äx.01-y"), Some("release/2.x"), Some("日本語/--")] {
                         assignments.push(ZervVars {
                             major: maj, minor: min, patch: pat, epoch,
                             pre_release: pre.clone().map(|(label, number)| PreReleaseVar { label, number }),
